@@ -41,8 +41,22 @@ EMPTY = lit('')
 f_uuid_ok = z3.Function('uuid_ok', StrS, z3.BoolSort())          # Uuid::parse_str succeeds
 f_uuid_hyph = z3.Function('uuid_hyph', StrS, StrS)               # canonical hyphenated text of its value
 f_dec_ok = z3.Function('dec_ok', StrS, z3.BoolSort())            # Decimal::from_str succeeds
-f_dec_n = z3.Function('dec_n', StrS, z3.IntSort())               # signed mantissa
-f_dec_d = z3.Function('dec_d', StrS, z3.IntSort())               # 10^scale
+f_dec_n = z3.Function('dec_n', StrS, z3.IntSort())               # signed value of the text times the common denominator 10^k
+_DEC_T = [10 ** 3]
+
+
+def set_dec_scale(k):
+    """all decimal texts inside the bounds have at most k fractional digits: values are carried as integers over the common denominator 10^k"""
+    _DEC_T[0] = 10 ** k
+
+
+def dec_T():
+    return _DEC_T[0]
+
+
+def f_dec_d(s):
+    """common denominator of every parsed decimal (a constant): dec value of string s is dec_n(s) / 10^k"""
+    return z3.IntVal(_DEC_T[0])
 f_addr_ok = z3.Function('addr_ok', StrS, z3.BoolSort())          # Api::addr_validate succeeds
 f_marker_found = z3.Function('marker_found', StrS, z3.BoolSort())
 f_marker_dec = z3.Function('marker_decodes', StrS, z3.BoolSort())
@@ -221,8 +235,9 @@ def U(v):
     return Adt('Uint128', None, [v])
 
 
-def Dec(n, d, inexact=False):
-    return Adt('Decimal', None, [n, d, inexact])
+def Dec(n, d, inexact=False, src=None):
+    """value n/d; inexact: went through the 28-digit quotient; src: the string it was parsed from (for to_string)"""
+    return Adt('Decimal', None, [n, d, inexact, src])
 
 
 def Addr(s):
